@@ -15,21 +15,21 @@ type delEntry struct {
 }
 
 type simIter struct {
-	name        string
-	it          statedb.ChangeIterator[*Obj]
-	table       *simTable
-	creationRev uint64
-	committed   bool // the transaction that created it has committed
-	createdIn   string
-	replay      map[string]Obs
-	gotDelete   map[string][]uint64 // id -> revisions of delivered deletions
-	lastRev     uint64
-	lastSnapRev uint64               // revision of the newest snapshot passed to Next
-	openWatch   <-chan struct{}      // open channel returned by the last Next (nil if none)
-	openAtRev   uint64               // committed table revision when openWatch was handed out
-	settledBefore bool               // table.settled before this iterator was created
-	ownHandle   bool                 // created through the "<handle>-it" DB handle
-	delivered   int
+	name          string
+	it            statedb.ChangeIterator[*Obj]
+	table         *simTable
+	creationRev   uint64
+	committed     bool // the transaction that created it has committed
+	createdIn     string
+	replay        map[string]Obs
+	gotDelete     map[string][]uint64 // id -> revisions of delivered deletions
+	lastRev       uint64
+	lastSnapRev   uint64          // revision of the newest snapshot passed to Next
+	openWatch     <-chan struct{} // open channel returned by the last Next (nil if none)
+	openAtRev     uint64          // committed table revision when openWatch was handed out
+	settledBefore bool            // table.settled before this iterator was created
+	ownHandle     bool            // created through the "<handle>-it" DB handle
+	delivered     int
 }
 
 // txnDeletes tracks the deletions made inside the running transaction, per table.
